@@ -12,6 +12,9 @@ NoPre == [l |-> "none", n |-> NONE]
 Labels == {"alpha", "beta", "rc"}
 
 LevelIndex(order, lv) == CHOOSE i \in 1..Len(order) : order[i] = lv
+InOrder(order, lv) == \E i \in 1..Len(order) : order[i] = lv
+AllLevels == {"Epoch", "Major", "Minor", "Patch", "Core", "PreReleaseLabel", "PreReleaseNum", "Post", "Dev", "ExtraCore", "Build"}
+IsPermutation(order) == Len(order) = 11 /\ { order[i] : i \in 1..Len(order) } = AllLevels
 
 \* ------------------------------------------------------------------- resets --
 ResetOne(v, lv) ==
@@ -54,6 +57,14 @@ ProcLabel(v, order, ovLabel, ovNum, bpLabel) ==
                                           ELSE IF v.pre.l # "none" /\ v.pre.n # NONE THEN v.pre.n ELSE 0]]
   IN  IF bpLabel = "" THEN v1
       ELSE [ResetLower(v1, order, "PreReleaseLabel") EXCEPT !.pre = [l |-> bpLabel, n |-> 0]]
+
+\* a numeric flag value may be a template reference to a variable of the pre-bump snapshot:
+\*  -10 {{ major }}  -11 {{ minor }}  -12 {{ patch }}  -13 {{ distance }}  -14 {{ post }}
+\* (an unset variable renders as nothing: the flag then has no value at all)
+ResolveRef(x, v, ctx) ==
+  CASE x = -10 -> v.major [] x = -11 -> v.minor [] x = -12 -> v.patch [] x = -13 -> ctx.distance [] x = -14 -> v.post
+    [] OTHER -> x
+ResolveAll(r, v, ctx) == [f \in DOMAIN r |-> IF f = "label" THEN r[f] ELSE ResolveRef(r[f], v, ctx)]
 
 ProcByName(v, order, lv, a) ==
   CASE lv \in {"Epoch", "Major", "Minor", "Patch", "Post", "Dev"} ->
@@ -104,6 +115,9 @@ ApplySpec(v, sch, order, sec, spec) ==
   THEN [err |-> TRUE, v |-> v, sch |-> sch]
   ELSE IF c.t = "var"
   THEN IF ~NumericOk(spec.ov) \/ ~NumericOk(spec.bp) THEN [err |-> TRUE, v |-> v, sch |-> sch]
+       \* a bump resets the levels below its own: the level must be part of the precedence order
+       ELSE IF spec.bp.t # "none" /\ ~InOrder(order, IF c.v = "PreRelease" THEN "PreReleaseNum" ELSE VarLevel(c.v))
+            THEN [err |-> TRUE, v |-> v, sch |-> sch]
        ELSE [err |-> FALSE, sch |-> sch,
              v |-> IF c.v = "PreRelease" THEN ProcPreNum(v, order, NumOf(spec.ov), NumOf(spec.bp))
                    ELSE ProcNum(v, order, VarLevel(c.v), NumOf(spec.ov), NumOf(spec.bp))]
